@@ -19,6 +19,22 @@ import (
 // goroutines of the code under test started while no simulation was running
 var outside atomic.Int64
 
+var (
+	stalls        [4][3]int64
+	nStall        int
+	StallsApplied int64 // decisions in which a stalled task was passed over
+)
+
+//go:norace
+func stalled(i int) bool {
+	for k := 0; k < nStall; k++ {
+		if stalls[k][0] == int64(i) && Steps >= stalls[k][1] && Steps < stalls[k][2] {
+			return true
+		}
+	}
+	return false
+}
+
 //go:norace
 func ptr(b *byte) unsafe.Pointer { return unsafe.Pointer(b) }
 
@@ -190,6 +206,10 @@ type Config struct {
 	Clock      bool
 	ClockTick  int64
 	ClockJumps [][2]int64
+	// Stalls: task id, from step, to step (relative to the start of the phase):
+	// a stalled task is not chosen to run while any other task can (a slow or
+	// descheduled node; the fault that makes "it always finishes first" false)
+	Stalls [][3]int64
 }
 
 //go:norace
@@ -285,6 +305,13 @@ func Init(c Config) {
 			syscall.Close(tasks[i].wfd)
 		}
 		tasks[i] = task{}
+	}
+	nStall = 0
+	for i, st := range c.Stalls {
+		if i < len(stalls) {
+			stalls[i] = [3]int64{st[0], st[1] + Steps, st[2] + Steps}
+			nStall = i + 1
+		}
 	}
 	resetClock(c.ClockTick, c.ClockJumps)
 	if c.Clock {
@@ -514,6 +541,20 @@ rebuild:
 		// the clock moved: what this task itself waits for may have happened
 		cand[n] = me
 		n++
+	}
+	if nStall > 0 && n > 1 && !halting {
+		// stall fault: a stalled task is passed over while anybody else can run
+		k := 0
+		for i := 0; i < n; i++ {
+			if !stalled(cand[i]) {
+				cand[k] = cand[i]
+				k++
+			}
+		}
+		if k > 0 && k < n {
+			n = k
+			StallsApplied++
+		}
 	}
 	if n == 0 && !Deadlock && !Draining && !halting && advanceClock(me, kind) {
 		// nobody could run and something was pending on the clock: simulated
